@@ -325,6 +325,46 @@ loop 5000 0
         }
         if bad { std::process::exit(11); }
     }
+    if which == "modref" {
+        // a reference cell installed as a global (lives in the global heap), written with a fresh heap value, then collections
+        use gluon::vm::reference::Reference;
+        type RS = OpaqueValue<RootedThread, Reference<String>>;
+        let (v, typ) = vm.run_expr::<OpaqueValue<RootedThread, Hole>>("mk", r#"let { ref } = import! std.reference in ref "initial""#).unwrap_or_else(|e| panic!("{}", e));
+        vm.get_database_mut().set_global("c05ref", typ, Default::default(), v.get_value());
+        drop(v);
+        let churn = r#"
+let { (++) } = import! std.string
+let list @ { List } = import! std.list
+let left = "XXXXXXXXXXXXXXXXXXXXXXXXXXXXX"
+let churn n acc : Int -> List String -> List String =
+    if n == 0 then acc else churn (n - 1) (Cons (left ++ "YYYYYYYYYYYYYYYYYYYYYYYYYYYYYYYYY") acc)
+match churn 64 Nil with
+| Cons x _ -> x
+| Nil -> ""
+"#;
+        let expected = "cell-payload:0123456789abcdef:0123456789abcdef0123456789abcdef";
+        let child = vm.new_thread().unwrap();
+        child.run_io(true);
+        let (mut store, _) = child.run_expr::<gluon::vm::api::OwnedFunction<fn(RS) -> gluon::vm::api::IO<()>>>("st", r#"
+let { (<-) } = import! std.reference
+let { (++) } = import! std.string
+let left = "cell-payload:0123456789abcdef"
+\c -> c <- (left ++ ":0123456789abcdef0123456789abcdef")
+"#).unwrap_or_else(|e| panic!("{}", e));
+        let (mut read, _) = vm.run_expr::<gluon::vm::api::OwnedFunction<fn(RS) -> gluon::vm::api::IO<String>>>("rd", r#"let { load } = import! std.reference in \c -> load c"#).unwrap_or_else(|e| panic!("{}", e));
+        let cell = || -> RS { vm.get_global("c05ref").unwrap_or_else(|e| panic!("{}", e)) };
+        println!("store from child: {:?}", store.call(cell()).map(|_| ()).map_err(|e| e.to_string()));
+        let mut bad = false;
+        for i in 0..4 {
+            child.collect(); vm.collect();
+            let _ = child.run_expr::<String>(&format!("cchurn{}", i), churn).unwrap();
+            let _ = vm.run_expr::<String>(&format!("rchurn{}", i), churn).unwrap();
+            let again = read.call(cell()).map_err(|e| e.to_string()).and_then(|io| match io { gluon::vm::api::IO::Value(s) => Ok(s), gluon::vm::api::IO::Exception(e) => Err(e) });
+            println!("load after {} round(s) of collections: {:?}", i + 1, again.as_ref().map(|s| s.chars().take(70).collect::<String>()));
+            if again.as_ref().map(|s| s.as_str()) != Ok(expected) { bad = true; }
+        }
+        if bad { std::process::exit(12); }
+    }
     if which == "lazy" {
         let src = r#"let { lazy } = import! std.lazy in lazy (\_ -> error "fail")"#;
         let (l, _) = vm.run_expr::<OpaqueValue<RootedThread, Hole>>("t", src).unwrap(); let l: L = unsafe { std::mem::transmute(l) };
